@@ -46,3 +46,75 @@ def nontrivial_pair(c):
     if any(x == y for x in ba for y in bb): return True
     lo, hi = min(ba), max(ba)
     return any(lo < y < hi for y in bb) or any(min(bb) < x < max(bb) for x in ba)
+
+
+# ----------------------------------------------------------------------------- search after a broken proof / correspondence
+OPS_N = ["<", "<=", ">", ">=", "==", "!="]
+def _pieces(s):
+    gs = [g.strip() for g in s.split("||") if g.strip()]
+    cl = [c.strip() for g in gs for c in g.split(",") if c.strip()]
+    out = []
+    for x in [s] + gs + cl:
+        if x not in out: out.append(x)
+    return out
+def _neighbours(clause):
+    """the same literal under the other comparison operators, with and without its pre/post/dev/local parts"""
+    import re
+    m = re.match(r"^\s*(~=|==|!=|<=|>=|<|>|\^|~)?\s*([^*]*?)(\.\*)?\s*$", clause)
+    if not m or not m.group(2): return []
+    lits = [m.group(2)]
+    try:
+        v = V(m.group(2))
+        from poetry.core.constraints.version import Version
+        lits.append(Version(epoch=v.epoch, release=v.release).text)
+        if v.is_local(): lits.append(v.without_local().text)
+    except Exception:  # noqa
+        return []
+    return [op + l for l in dict.fromkeys(lits) for op in OPS_N]
+def variants(a, b, limit=600):
+    """Smaller and neighbouring pairs derived from a pair on which model and implementation disagree."""
+    pa, pb = _pieces(a), _pieces(b)
+    out = []
+    def add(x, y):
+        if (x, y) not in out: out.append((x, y))
+    for x in pa:
+        for y in pb:
+            add(x, y); add(y, x)
+    for x in pa[-4:]:
+        for y in pb[-4:]:
+            for x2 in _neighbours(x)[:12]:
+                for y2 in _neighbours(y)[:12]:
+                    add(x2, y2)
+                    if len(out) >= limit: return out
+    return out
+def make_search(judge, fresh=None):
+    """judge(a_text, b_text) -> detail or None, evaluated on the implementation.  Used by Run.finish when a theorem or the
+    correspondence no longer checks: first the neighbourhood of every disagreeing case, then [fresh] new random pairs."""
+    def search(R):
+        tried = 0
+        for _rel, case, *_ in R.disagreements:
+            a = case.get("a") or case.get("s"); b = case.get("b") or a
+            if not a: continue
+            for x, y in variants(a, b):
+                tried += 1
+                try: d = judge(x, y)
+                except Exception: d = None  # noqa
+                if d: R.notes.append(f"search: {tried} derived pairs tried"); return dict(a=x, b=y), d
+        if fresh:
+            for x, y in fresh(R):
+                tried += 1
+                try: d = judge(x, y)
+                except Exception: d = None  # noqa
+                if d: R.notes.append(f"search: {tried} pairs tried"); return dict(a=x, b=y), d
+        R.notes.append(f"search: {tried} pairs tried, no failing input")
+        return None
+    return search
+def fresh_pairs(n):
+    def gen(R):
+        for c in gen_pairs(R, n):
+            yield c.a, c.b
+    return gen
+def case_of(a, b):
+    c = Case(); c.a, c.b = a, b
+    c.ca, c.ga = I.parse_with_groups(a); c.cb, c.gb = I.parse_with_groups(b)
+    return c
